@@ -256,6 +256,8 @@ def splitter_actor(ctx) -> None:
             if isinstance(inner, (ast.Tuple, ast.List)) and len(inner.elts) == 2:
                 n0, n1 = core.names_in(inner.elts[0]), core.names_in(inner.elts[1])
                 pair_order = a in n0 and b not in n0 and b in n1 and a not in n1 and core.src(comp.elt) == core.src(gens[1].target)
+    subs = [n for n in ast.walk(sp.node) if isinstance(n, ast.Subscript) and isinstance(n.value, ast.Attribute) and n.value.attr in ('iloc', 'loc', 'take', 'reindex')]
+    ctx.check(len(subs) >= 2 and all(n.value.attr == 'iloc' for n in subs), 'C12.split-actor', sp, 'fold parts are cut by *position* (iloc): the cross-validator yields positional indices, features and labels share positions, not index labels', sp.node, key='split:positional')
     ctx.check(pair_order, 'C12.split-actor', sp, 'the splitter emits, per (train, test) index pair, the train part first and the test part second (ports 2k / 2k+1)', sp.node, key='split:order')
     tr = prog.func(f'{SPLIT}:CVFoldable.train')
     ctx.check('self._indices' in core.src(tr.node) and 'split(' in core.src(tr.node), 'C12.split-actor', tr, 'fold indices are fixed at training time and reused for features and labels', tr.node, key='split:train')
